@@ -15,11 +15,20 @@ typedef tmcg_openpgp_octets_t Oct;
 // gcry_md_write(h, NULL, 0) and by GCRYCTL_FINALIZE).
 static bool md_count_on = false;
 static uint64_t md_bytes = 0;
+// content log (for the S2K octet streams): the octets of the context being fed, closed into
+// md_streams at GCRYCTL_FINALIZE; md_digests collects what gcry_md_read hands back
+static bool md_log_on = false;
+static std::vector<unsigned char> md_cur;
+static std::vector< std::vector<unsigned char> > md_streams, md_digests;
 extern "C" void gcry_md_write(gcry_md_hd_t h, const void *buffer, size_t length)
 {
 	typedef void (*fn_t)(gcry_md_hd_t, const void*, size_t);
 	static fn_t real = (fn_t)dlsym(RTLD_NEXT, "gcry_md_write");
 	if (md_count_on) md_bytes += (uint64_t)h->bufpos + length;
+	if (md_log_on) {
+		md_cur.insert(md_cur.end(), h->buf, h->buf + h->bufpos);
+		if (buffer && length) md_cur.insert(md_cur.end(), (const unsigned char*)buffer, (const unsigned char*)buffer + length);
+	}
 	real(h, buffer, length);
 }
 extern "C" gcry_error_t gcry_md_ctl(gcry_md_hd_t h, int cmd, void *buffer, size_t buflen)
@@ -27,7 +36,19 @@ extern "C" gcry_error_t gcry_md_ctl(gcry_md_hd_t h, int cmd, void *buffer, size_
 	typedef gcry_error_t (*fn_t)(gcry_md_hd_t, int, void*, size_t);
 	static fn_t real = (fn_t)dlsym(RTLD_NEXT, "gcry_md_ctl");
 	if (md_count_on && cmd == GCRYCTL_FINALIZE) md_bytes += (uint64_t)h->bufpos;
+	if (md_log_on && cmd == GCRYCTL_FINALIZE) {
+		md_cur.insert(md_cur.end(), h->buf, h->buf + h->bufpos);
+		md_streams.push_back(md_cur); md_cur.clear();
+	}
 	return real(h, cmd, buffer, buflen);
+}
+extern "C" unsigned char *gcry_md_read(gcry_md_hd_t h, int algo)
+{
+	typedef unsigned char *(*fn_t)(gcry_md_hd_t, int);
+	static fn_t real = (fn_t)dlsym(RTLD_NEXT, "gcry_md_read");
+	unsigned char *d = real(h, algo);
+	if (md_log_on && d) md_digests.push_back(std::vector<unsigned char>(d, d + gcry_md_get_algo_dlen(algo)));
+	return d;
 }
 
 // ---------------------------------------------------------------- helpers
@@ -300,6 +321,39 @@ static int drv_pgpcodec(const Opts &o)
 			md_count_on = false;
 			if (out.size() != 16) { fprintf(stderr, "S2KCompute produced %zu octets\n", out.size()); return 3; }
 			emit("pgp.s2k.count " + std::to_string(c) + " => " + std::to_string(md_bytes));
+		}
+	}
+	// ================================================= S2K: the octets fed to every hash context, the key
+	{
+		static const struct { tmcg_openpgp_hashalgo_t a; unsigned dlen; } algs[] = {
+			{ TMCG_OPENPGP_HASHALGO_SHA1, 20 }, { TMCG_OPENPGP_HASHALGO_SHA256, 32 },
+			{ TMCG_OPENPGP_HASHALGO_SHA512, 64 }, { TMCG_OPENPGP_HASHALGO_SHA384, 48 },
+			{ TMCG_OPENPGP_HASHALGO_SHA224, 28 } };
+		static const unsigned cnts[] = { 0, 1, 2, 15, 16, 17, 31, 32 };
+		// lengths of salt ‖ passphrase around the decoded counts (1024, 1088, 1152, 1984, 2048, ...)
+		static const size_t plens[] = { 0, 1, 4, 8, 63, 64, 500, 504, 505, 1015, 1016, 1017, 1018, 1079, 1080, 1081, 1144, 1500, 2040, 2041, 4000 };
+		static const size_t sklens[] = { 16, 24, 32, 20, 40, 64, 1, 65 };
+		size_t ncases = 40 + o.cases / 4;
+		for (size_t k = 0; k < ncases; k++) {
+			unsigned ai = g.below(5), c = cnts[g.below(8)];
+			size_t pl = g.below(4) ? plens[g.below(sizeof(plens) / sizeof(plens[0]))] : g.below(2300);
+			size_t sklen = sklens[g.below(8)];
+			bool iter = g.below(5) != 0;
+			size_t sl = g.below(12) ? 8 : g.below(12);
+			Oct salt = rnd_octets(g, sl);
+			tmcg_openpgp_secure_string_t pw; Oct pwo;
+			for (size_t i = 0; i < pl; i++) { unsigned char b = (unsigned char)(1 + g.below(255)); pw += (char)b; pwo.push_back(b); }
+			tmcg_openpgp_secure_octets_t out;
+			md_streams.clear(); md_digests.clear(); md_cur.clear(); md_log_on = true;
+			PGP::S2KCompute(algs[ai].a, sklen, pw, salt, iter, (tmcg_openpgp_byte_t)c, out);
+			md_log_on = false;
+			std::string ds, ss;
+			for (size_t i = 0; i < md_digests.size(); i++) ds += (i ? "," : "") + hexs(md_digests[i]);
+			for (size_t i = 0; i < md_streams.size(); i++) ss += (i ? "," : "") + hexs(md_streams[i]);
+			Oct key(out.begin(), out.end());
+			emit("pgp.s2k.key " + std::to_string(iter ? 1 : 0) + " " + std::to_string(c) + " " + std::to_string(sklen) + " " +
+			     std::to_string(algs[ai].dlen) + " " + hx(salt) + " " + hx(pwo) + " " + (ds.empty() ? "-" : ds) +
+			     " tag:alg" + std::to_string((int)algs[ai].a) + " => " + (ss.empty() ? "-" : ss) + " " + hx(key));
 		}
 	}
 	// ================================================= random cases
